@@ -16,7 +16,7 @@ EXTENDS Unparse, Json
 CONSTANT MaxItems
 
 \* body items; the body sees d (data passed by the composition) and o (a variable of the caller)
-ItemNames == {"text", "quote", "data", "outer", "loop", "cond", "trusted", "sub", "letd"}
+ItemNames == {"text", "quote", "data", "outer", "loop", "cond", "trusted", "sub", "letd", "time"}
 Item(n) ==
   CASE n = "text"    -> <<Text(<<"t", "<", "i", ">">>)>>
     [] n = "quote"   -> <<Text(<<"QUOT", "APOS", "=", "NL">>)>>
@@ -27,16 +27,21 @@ Item(n) ==
     [] n = "trusted" -> <<Emit(Call("raw", <<Str(<<"<", "b", ">">>)>>))>>
     [] n = "sub"     -> <<Text(<<"{">>), Emit(Call("partial", <<Str(<<"s", "u", "b">>), Hash(<<"d">>, <<Str(<<"s", "AMP">>)>>)>>)), Text(<<"}">>)>>
     [] n = "letd"    -> <<Let("d", Str(<<"l">>)), Emit(Id("d"))>>
+    \* a time.Time of the context: printed with the TIME_FORMAT visible where the output tag stands
+    [] n = "time"    -> <<Text(<<"@">>), Emit(Id("tm"))>>
 SubPart == <<Text(<<"s", ":">>), Emit(Id("d")), Emit(Id("o"))>>
 
 Comps == {"cfor_omit", "partial", "partial_js", "partial_html", "partial_nodata", "layout", "layout2", "layout_js", "nested", "cfor", "cfor_twice", "cfor_redefined",
-          "cof_default", "cof_undefined", "cof_defined_default", "blk", "blkown", "blks", "cfor_inloop", "layout_cfor"}
+          "cof_default", "cof_undefined", "cof_defined_default", "blk", "blkown", "blks", "cfor_inloop", "layout_cfor",
+          "layout_shared", "layout_sharedloop", "cfor_timefmt", "partial_timefmt", "blkown_timefmt", "cofdefault_timefmt"}
 CTs == {"none", "html", "js"}
 CT(c) == CASE c = "none" -> EmptyScope [] c = "html" -> [contentType |-> S(<<"t","e","x","t","/","h","t","m","l">>)]
            [] c = "js" -> [contentType |-> S(<<"a","p","p","/","j","a","v","a","s","c","r","i","p","t">>)]
 
 D == Str(<<"D", "LT", "AMP">>)          \* the data value: a string with special characters
 DH == Hash(<<"d">>, <<D>>)
+TF == Str(<<"2", "0", "0", "6", "-", "0", "1", "-", "0", "2">>)          \* a TIME_FORMAT
+DTF == Hash(<<"d", "TIME_FORMAT">>, <<D, TF>>)
 Lay == <<Text(<<"[">>), Emit(Id("yield")), Text(<<"|">>), Emit(Id("o")), Text(<<"]">>)>>
 Lay2 == <<Text(<<"{">>), Emit(Id("yield")), Text(<<"}">>)>>
 
@@ -71,6 +76,17 @@ Compose(c, body) ==
     [] c = "layout_cfor"  -> [prog |-> <<Emit(Call("partial", <<P(<<"p">>), Hash(<<"d", "layout">>, <<D, Str(<<"k">>)>>)>>))>>,
                               parts |-> [p |-> <<Code(CallB("contentFor", <<Str(<<"t">>)>>, body)), Text(<<"b">>)>>,
                                          k |-> <<Text(<<"<">>), Emit(Call("contentOf", <<Str(<<"t">>)>>)), Text(<<"|">>), Emit(Id("yield")), Text(<<">">>)>>], inline |-> <<>>]
+    \* ONE options map with a layout, held in a variable, passed to two partial calls (siblings / iterations of a loop)
+    [] c = "layout_shared" -> [prog |-> <<Let("opts", Hash(<<"d", "layout">>, <<D, Str(<<"l">>)>>)), Emit(Call("partial", <<P(<<"p">>), Id("opts")>>)), Text(<<"|">>), Emit(Call("partial", <<P(<<"p">>), Id("opts")>>))>>,
+                              parts |-> [p |-> body, l |-> Lay], inline |-> <<>>]
+    [] c = "layout_sharedloop" -> [prog |-> <<Let("opts", Hash(<<"d", "layout">>, <<D, Str(<<"l">>)>>)), Emit(For("", "w", Arr(<<IntL(7), IntL(8)>>), <<Emit(Call("partial", <<P(<<"p">>), Id("opts")>>)), Text(<<";">>)>>))>>,
+                              parts |-> [p |-> body, l |-> Lay], inline |-> <<>>]
+    \* the composition's data carries a TIME_FORMAT: output tags of the composed body print times with it
+    [] c = "cfor_timefmt" -> [prog |-> <<Code(CallB("contentFor", <<Str(<<"c">>)>>, body)), Text(<<"|">>), Emit(Call("contentOf", <<Str(<<"c">>), DTF>>)), Emit(Id("tm"))>>, parts |-> EmptyScope,
+                              inline |-> <<Text(<<"|">>), Emit(CallB("blkown", <<DTF>>, body)), Emit(Id("tm"))>>]
+    [] c = "partial_timefmt" -> [prog |-> <<Emit(Call("partial", <<P(<<"p">>), DTF>>)), Emit(Id("tm"))>>, parts |-> [p |-> body], inline |-> <<Emit(CallB("blkown", <<DTF>>, body)), Emit(Id("tm"))>>]
+    [] c = "blkown_timefmt" -> [prog |-> <<Emit(CallB("blkown", <<DTF>>, body)), Emit(Id("tm"))>>, parts |-> EmptyScope, inline |-> <<>>]
+    [] c = "cofdefault_timefmt" -> [prog |-> <<Emit(CallB("contentOf", <<Str(<<"n">>), DTF>>, body)), Emit(Id("tm"))>>, parts |-> EmptyScope, inline |-> <<Emit(CallB("blkown", <<DTF>>, body)), Emit(Id("tm"))>>]
     [] c = "cfor_redefined" -> [prog |-> <<Code(CallB("contentFor", <<Str(<<"c">>)>>, <<Text(<<"o", "l", "d">>)>>)), Code(CallB("contentFor", <<Str(<<"c">>)>>, body)), Emit(Call("contentOf", <<Str(<<"c">>), DH>>))>>, parts |-> EmptyScope,
                               inline |-> <<Emit(CallB("blkown", <<DH>>, body))>>]
     [] c = "cof_default"  -> [prog |-> <<Emit(CallB("contentOf", <<Str(<<"n">>), DH>>, body))>>, parts |-> EmptyScope, inline |-> <<Emit(CallB("blkown", <<DH>>, body))>>]
@@ -81,6 +97,8 @@ Compose(c, body) ==
     [] c = "blkown"       -> [prog |-> <<Emit(CallB("blkown", <<DH>>, body))>>, parts |-> EmptyScope, inline |-> <<>>]
     [] c = "blks"         -> [prog |-> <<Let("d", D), Emit(CallB("blks", <<>>, body))>>, parts |-> EmptyScope, inline |-> <<>>]
 
+\* tm: a time.Time (2024-03-05 10:30:00 UTC)
+DataOf(c) == [k \in DOMAIN CT(c) \cup {"tm"} |-> IF k = "tm" THEN [t |-> "time"] ELSE CT(c)[k]]
 VARIABLES comp, ct, names, res
 vars == <<comp, ct, names, res>>
 Body == Flat([i \in 1..Len(names) |-> Item(names[i])])
@@ -93,7 +111,7 @@ Init == comp \in Comps /\ ct \in CTs /\ names = <<>> /\ res = [k |-> "none"]
 AddItem == /\ res.k = "none" /\ Len(names) < MaxItems /\ \E n \in ItemNames : names' = Append(names, n)
            /\ UNCHANGED <<comp, ct, res>>
 Finish == /\ res.k = "none" /\ Len(names) >= 1
-          /\ res' = Run(Pre \o Built.prog \o Post, WithHelpers(CT(ct)), WithSub(Built.parts), "")
+          /\ res' = Run(Pre \o Built.prog \o Post, WithHelpers(DataOf(ct)), WithSub(Built.parts), "")
           /\ UNCHANGED <<comp, ct, names>>
 Next == AddItem \/ Finish
 Spec == Init /\ [][Next]_vars
@@ -101,7 +119,7 @@ Spec == Init /\ [][Next]_vars
 \* composed = inline (where an inline equivalent is claimed and no javascript escaping is in play)
 JsInPlay == ct = "js" /\ (comp \in {"partial_html", "layout_js"} \/ \E i \in 1..Len(names) : names[i] = "sub")
 HasInline == Built.inline # <<>> /\ ~(ct = "js" /\ \E i \in 1..Len(names) : names[i] = "sub")
-InlineRes == Run(Pre \o Built.inline \o Post, WithHelpers(CT(ct)), WithSub(EmptyScope), "")
+InlineRes == Run(Pre \o Built.inline \o Post, WithHelpers(DataOf(ct)), WithSub(EmptyScope), "")
 InlineTheorem == (res.k # "none" /\ HasInline) => (InlineRes.k = res.k /\ (res.k = "out" => PieceChars(InlineRes.pieces) = PieceChars(res.pieces)))
 \* the caller's variable is unchanged afterwards and the scope stack is balanced
 FrameTheorem == res.k = "out" => (res.depth = 1 /\ res.top["o"] = S(<<"O", "APOS">>))
@@ -117,6 +135,6 @@ EmitCase == res.k = "none" \/
             PrintT("CASE " \o ToJson([gen |-> "GenCompose",
                                        srcs |-> IF HasInline THEN [composed |-> Unparse(Pre \o Built.prog \o Post), inlined |-> Unparse(Pre \o Built.inline \o Post)]
                                                 ELSE [composed |-> Unparse(Pre \o Built.prog \o Post)],
-                                       data |-> CT(ct), parts |-> PartToks(WithSub(Built.parts)),
+                                       data |-> DataOf(ct), parts |-> PartToks(WithSub(Built.parts)),
                                        shape |-> comp \o ":" \o ct \o ":" \o JoinNames(names), expect |-> Expect(res)]))
 =============================================================================
